@@ -90,7 +90,7 @@ def configs(tier):
                 continue
             for ic in _ics(spec, n, tier):
                 modes = ['plain']
-                if spec in ('SIS', 'SIR') and (g in ('P3', 'K2', 'D:3:01,12', 'P3loop') or (tier == 'thorough' and g in ('K3', 'K2+K1', 'D:2:01', 'D:3:01,10,12'))) \
+                if spec in ('SIS', 'SIR') and (g in ('P3', 'K2', 'D:3:01,12', 'P3loop', 'D:3:01,10,12') or (tier == 'thorough' and g in ('K3', 'K2+K1', 'D:2:01', 'D:3:01,10,12'))) \
                         and ic in _ics(spec, n, 'quick'):
                     modes += ['weight_label', 'rate_function']
                 for mode in modes:
@@ -109,7 +109,7 @@ def configs(tier):
 def c09_configs(tier):
     out = []
     E = 3 if tier == 'quick' else 4
-    for spec in (['SIS', 'SEIR', 'compete'] if tier == 'quick' else list(SPECS)):
+    for spec in (['SIS', 'SEIR', 'compete', 'rumour'] if tier == 'quick' else list(SPECS)):
         for g in (['P3', 'D:3:01,12,20'] if tier == 'quick' else ['P3', 'K3'] + DIGRAPHS_Q):
             directed = g.startswith('D:')
             n = graphs.make(g, directed=directed).order()
